@@ -264,15 +264,15 @@ macro_rules! proofs {
     )*};
 }
 
-// @harness c20_find_n3 tier=quick unwind=6 block=128 mem=22 timeout=1800
-// @harness c20_find_n3_reach tier=quick unwind=6 block=128 mem=16 timeout=1800 twin
-// @harness c20_unite_n3 tier=quick unwind=6 block=128 mem=26 timeout=1800
-// @harness c20_unite_n3_reach tier=quick unwind=6 block=128 mem=16 timeout=1800 twin
-// @harness c20_clone_copy_n2 tier=quick unwind=5 block=128 mem=24 timeout=1800
-// @harness c20_clone_orig_n2 tier=quick unwind=5 block=128 mem=24 timeout=1800
-// @harness c20_clone_orig_n2_reach tier=quick unwind=5 block=128 mem=16 timeout=1800 twin
-// @harness c20_new tier=quick unwind=5 block=128 mem=16 timeout=1800
-// @harness c20_new_reach tier=quick unwind=5 block=128 mem=12 timeout=1800 twin
+// @harness c20_find_n3 tier=quick unwind=6 block=128 mem=29 timeout=3077
+// @harness c20_find_n3_reach tier=quick unwind=6 block=128 mem=26 timeout=1800 twin
+// @harness c20_unite_n3 tier=quick unwind=6 block=128 mem=15 timeout=2664
+// @harness c20_unite_n3_reach tier=quick unwind=6 block=128 mem=15 timeout=993 twin
+// @harness c20_clone_copy_n2 tier=quick unwind=5 block=128 mem=12 timeout=1170
+// @harness c20_clone_orig_n2 tier=quick unwind=5 block=128 mem=23 timeout=2616
+// @harness c20_clone_orig_n2_reach tier=quick unwind=5 block=128 mem=22 timeout=3176 twin
+// @harness c20_new tier=quick unwind=5 block=128 mem=2 timeout=900
+// @harness c20_new_reach tier=quick unwind=5 block=128 mem=2 timeout=900 twin
 // @harness c20_clone_copy_n3 tier=thorough unwind=6 block=128 mem=44 timeout=3600
 // @harness c20_clone_orig_n3 tier=thorough unwind=6 block=128 mem=44 timeout=3600
 // @harness c20_find_n4 tier=thorough unwind=7 block=128 mem=44 timeout=3600 stretch
